@@ -1,15 +1,5 @@
 // S1: local shims for std free functions Verus cannot take generically. Each is discharged against std by a Kani harness
 // (kc/lib_harness.rs: std_spec_*).
-pub fn max(a: i32, b: i32) -> (r: i32)
-    ensures r == (if a >= b { a } else { b }),
-{
-    if a >= b { a } else { b }
-}
-pub fn min(a: i32, b: i32) -> (r: i32)
-    ensures r == (if a <= b { a } else { b }),
-{
-    if a <= b { a } else { b }
-}
 // S2: assumed specifications of std integer methods (each discharged by a Kani harness std_spec_*).
 pub open spec fn i32_sat_sub(a: i32, b: i32) -> i32 {
     if a - b > i32::MAX { i32::MAX } else if a - b < i32::MIN { i32::MIN } else { (a - b) as i32 }
